@@ -110,7 +110,7 @@ def restart_then_merge_case(rng):
     gap = int(1.5 * length) + rng.choice([0, 5, 60])
     early_len = rng.choice([int(0.4 * length), int(0.7 * length)])
     first = gap + early_len
-    piece = int(0.45 * length)
+    piece = int(rng.choice([0.45, 0.6]) * length)      # each fragment on its own incomplete, or complete
     fragments = [[name, 0, early_len, float(rng.choice([20, 30, 60]))]]
     scores = [float(rng.choice([50, 40])), float(rng.choice([20, 50, 60]))]
     fragments.append([name, first, first + piece, scores[0]])
